@@ -1077,6 +1077,11 @@ def generate_trees(rng: random.Random, profile: Dict[str, Any]) -> Dict[str, Any
         if rng.random() < 0.3:
             op = {"op": "RULE", "rule": rng.choice(["tracing.fix_reimported_names", "tracing.fix_starred_imports"]), "x": x, "tree": tree}
         ops.append(op)
+    if ops and rng.random() < 0.6:
+        # the same call again after the parse cache has turned over (longer-lived caches still know the text)
+        again = dict(rng.choice(ops))
+        ops.append({"op": "EVICT", "k": 120, "tag": len(ops)})
+        ops.append(again)
     # small caches: the parse cache forgets a client's tree between two calls on the same text while
     # longer-lived caches (trace_origin) still hold nodes of it
     return {"engine": "e2", "knobs": rng.choice(["default", "unbounded", "small", "tiny"]), "ops": ops, "keep_going": False, "trees": True}
